@@ -39,12 +39,12 @@ Qed.
     siblings untouched and, between them, the nodes of a state that shows exactly what a
     fresh render of the value shows ([cv v], cf. [render_fresh_ok]) *)
 Theorem rebuild_eq_fresh : forall pre post s w v,
-  mounted pre post s w -> okv v ->
+  mounted pre post s w -> okv v -> compat v s ->
   let '(s', w') := rebuild_any v s w in mounted pre post s' w' /\ cs s' = cv v.
 Proof.
-  intros pre post s w v [Hp [Hd [Hg [Hnd Hb]]]] Hok.
+  intros pre post s w v [Hp [Hd [Hg [Hnd Hb]]]] Hok Hcp.
   destruct (rebuild_any v s w) as [s' w'] eqn:E.
-  destruct (rebuild_any_ok v Hok s pre post w Hg Hp Hd Hnd Hb s' w' E) as [P1 [D1 [G1 [C1 [L1 N1]]]]].
+  destruct (rebuild_any_ok v Hok s pre post w Hcp Hg Hp Hd Hnd Hb s' w' E) as [P1 [D1 [G1 [C1 [L1 N1]]]]].
   split; auto. unfold mounted. repeat split; auto. intros x Hx. specialize (Hb x Hx). lia.
 Qed.
 
@@ -54,15 +54,20 @@ Fixpoint rebuild_seq (vs : list view) (s : st) (w : rw) : st * rw :=
   | [] => (s, w)
   | v :: rest => let '(s', w') := rebuild_any v s w in rebuild_seq rest s' w'
   end.
-Fixpoint all_ok (l : list view) : Prop := match l with [] => True | x :: r => okv x /\ all_ok r end.
+(** every value of the sequence is outside the known classes when its turn comes *)
+Fixpoint all_ok (vs : list view) (s : st) (w : rw) : Prop :=
+  match vs with
+  | [] => True
+  | v :: rest => okv v /\ compat v s /\ let '(s', w') := rebuild_any v s w in all_ok rest s' w'
+  end.
 
 Theorem rebuild_seq_eq_fresh : forall vs pre post s w v0,
-  mounted pre post s w -> cs s = cv v0 -> all_ok vs ->
+  mounted pre post s w -> cs s = cv v0 -> all_ok vs s w ->
   let '(s', w') := rebuild_seq vs s w in mounted pre post s' w' /\ cs s' = cv (last vs v0).
 Proof.
   induction vs as [|v vs IH]; intros pre post s w v0 Hm Hc Hok.
   - simpl. auto.
-  - destruct Hok as [Hv Hr]. cbn [rebuild_seq]. pose proof (rebuild_eq_fresh pre post s w v Hm Hv) as H.
+  - destruct Hok as [Hv [Hcp Hr]]. cbn [rebuild_seq]. pose proof (rebuild_eq_fresh pre post s w v Hm Hv Hcp) as H.
     destruct (rebuild_any v s w) as [s1 w1]. destruct H as [Hm1 Hc1].
     specialize (IH pre post s1 w1 v Hm1 Hc1 Hr). destruct (rebuild_seq vs s1 w1) as [s2 w2].
     destruct vs as [|v1 vs]; auto.
@@ -81,14 +86,14 @@ Proof. intros pre post s w [_ [Hd [_ [Hnd _]]]]. rewrite Hd. apply unmount_block
 Theorem retained_nodes_kept : forall v s w s' w',
   rebuild_any v s w = (s', w') -> tcode_eqb (tc_view v) (tc_st s) = true ->
   match s with
-  | SText id _ | SUnit id | SEl id _ _ _ _ _ => ids s' = [id]
+  | SText id _ _ | SUnit id | SEl id _ _ _ _ _ => ids s' = [id]
   | SVec _ mk => exists l, ids s' = l ++ [mk]
   | _ => True
   end.
 Proof.
   intros v s w s' w' E Htc.
-  destruct s as [id t|id|id tag prev d kids c|l|r c|c|ph|l mk|l b]; auto;
-    destruct v as [t'| |tag' a c'|l'|r' c'|[c'|]|l'|l']; try discriminate;
+  destruct s as [id k t|id|id tag prev d kids c|arr l|ar r c|c|ph|l mk|l b]; auto;
+    destruct v as [k' t'| |tag' a c'|arr' l'|ar' r' c'|[c'|]|l'|l']; try discriminate;
     cbn [rebuild_any] in E; rewrite Htc in E; cbn [negb] in E.
   - inversion E. reflexivity.
   - inversion E. reflexivity.
@@ -107,15 +112,15 @@ Qed.
 
 (** F-C03-a: an empty StaticVec owns no node; replacing it loses the new content *)
 Example refuted_static_empty :
-  let '(s, w) := render_fresh [] [] (VEither false (VStatic [])) 0 in
-  let '(s', w') := rebuild_any (VEither true (VText [104; 105]%N)) s w in
+  let '(s, w) := render_fresh [] [] (VEither 2 0 (VStatic [])) 0 in
+  let '(s', w') := rebuild_any (VEither 2 1 (VText 0 [104; 105]%N)) s w in
   r_dom w' = [] /\ ids s' = [0%N].
 Proof. vm_compute. auto. Qed.
 
 (** F-C03-b: StaticVec::rebuild re-mounts at the end of the parent, after the sibling *)
 Example refuted_static_after_sibling :
-  let '(s, w) := render_fresh [0%N] [1%N] (VStatic [VText [97%N]]) 2 in
-  let '(s', w') := rebuild_any (VStatic [VText [98%N]]) s w in
+  let '(s, w) := render_fresh [0%N] [1%N] (VStatic [VText 0 [97%N]]) 2 in
+  let '(s', w') := rebuild_any (VStatic [VText 0 [98%N]]) s w in
   r_dom w = [0; 2; 1]%N /\ r_dom w' = [0; 1; 3]%N /\ ids s' = [3%N].
 Proof. vm_compute. auto. Qed.
 
@@ -130,17 +135,20 @@ Proof. vm_compute. split; [reflexivity|discriminate]. Qed.
 (* ------------------------------------------------- the hypotheses are satisfiable *)
 
 Definition ex_view1 : view :=
-  VTuple [VEl 2 {| va_id := Some [105%N]; va_hidden := true; va_class := [97; 32; 98]%N; va_on := false;
-                   va_color := [114%N] |}
-              (VVec [VText [120%N]; VOpt None; VEither false VUnit]);
-          VOpt (Some (VText [121%N]))].
+  VTuple false
+    [VEl 2 {| va_id := Some [105%N]; va_hidden := true; va_class := [97; 32; 98]%N; va_on := false;
+              va_color := [114%N] |}
+         (VVec [VText 0 [120%N]; VOpt None; VEither 3 2 VUnit; VTuple true [VText 1 [55%N]]]);
+     VOpt (Some (VText 0 [121%N]))].
+(** the toggle is switched on, the class string changes, an Either branch switches, ... *)
 Definition ex_view2 : view :=
-  VTuple [VEl 2 {| va_id := None; va_hidden := false; va_class := [98%N]; va_on := false; va_color := [98%N] |}
-              (VVec [VEither true (VText [122%N]); VText [119%N]]);
-          VOpt None].
+  VTuple false
+    [VEl 2 {| va_id := None; va_hidden := false; va_class := [98%N]; va_on := true; va_color := [98%N] |}
+         (VVec [VEither 2 1 (VText 0 [122%N]); VText 0 [119%N]]);
+     VOpt None].
 
 Example ex_okv : okv ex_view1 /\ okv ex_view2.
-Proof. unfold ex_view1, ex_view2, okv, attrs_plain. cbv. intuition discriminate. Qed.
+Proof. unfold ex_view1, ex_view2. cbv. intuition discriminate. Qed.
 
 Example ex_rebuild :
   let '(s, w) := render_fresh [0%N] [1%N] ex_view1 2 in
@@ -148,8 +156,9 @@ Example ex_rebuild :
   mounted [0%N] [1%N] s' w' /\ cs s' = cv ex_view2.
 Proof.
   pose proof (render_fresh_ok [0%N] [1%N] ex_view1 2 (proj1 ex_okv)) as H.
-  destruct (render_fresh [0%N] [1%N] ex_view1 2) as [s w]. destruct H as [Hm Hc].
+  destruct (render_fresh [0%N] [1%N] ex_view1 2) as [s w] eqn:E. destruct H as [Hm Hc].
   - repeat constructor; simpl; intuition discriminate.
   - simpl. intros x [<-|[<-|[]]]; reflexivity.
-  - exact (rebuild_eq_fresh [0%N] [1%N] s w ex_view2 Hm (proj2 ex_okv)).
+  - apply (rebuild_eq_fresh [0%N] [1%N] s w ex_view2 Hm (proj2 ex_okv)).
+    vm_compute in E. inversion E. subst. cbv. auto.
 Qed.
